@@ -450,6 +450,15 @@ def run(ctx, col: Collector):
                 n += 1
                 col.obs.append(type(o)(col.prop, 'C03-db', 'ordering:' + o.construct, o.status, o.msg, o.file, o.line, o.extra))
         col.floor('C03-db', 'ordering obligations', n, 3)
+        # "every table appears exactly once": the table list the script is written from holds a table object at most once - add_table refuses an object it already
+        # holds whatever its current name is (guard shared with C09-guard / C06-unique)
+        sub9 = ctx.sub('c09', col.prop)
+        m = 0
+        for o in sub9.obs:
+            if o.rule == 'C09-guard' and o.construct.startswith('Database.add_table:same-object'):
+                m += 1
+                col.obs.append(type(o)(col.prop, 'C03-db', 'tables-once:' + o.construct, o.status, o.msg, o.file, o.line, o.extra))
+        col.floor('C03-db', 'same-object guard obligations', m, 1)
     guarded(col, 'C03-db', 'ordering', ordering_keeps_all)
 
     def note_owner():
